@@ -194,6 +194,13 @@ impl R32 {
     pub fn ceil(self) -> (r: R32)
         ensures val(r) == rceil(val(self)), is_integral(val(r)), val(r) >= val(self), val(self) > val(r) - 1real,
     { unimplemented!() }
+    // the real model has no NaN and no infinities (assumption R-f32; the Kani K-units cover them)
+    #[verifier::external_body]
+    pub fn is_nan(self) -> (r: bool) ensures !r { unimplemented!() }
+    #[verifier::external_body]
+    pub fn is_infinite(self) -> (r: bool) ensures !r { unimplemented!() }
+    #[verifier::external_body]
+    pub fn is_finite(self) -> (r: bool) ensures r { unimplemented!() }
     #[verifier::external_body]
     pub fn sin(self) -> (r: R32) ensures val(r) == rsin(val(self)) { unimplemented!() }
     #[verifier::external_body]
